@@ -679,7 +679,24 @@ def ask_rows(ctx, cfg, state0, depth, crash):
     return nodes, crash_node
 
 
-def compare_rows(ctx, case, rnode, state, events, clause="C19.rows"):
+def check_moved(ctx, case, moved, before, state, clause):
+    """`logTrack`: the values a column held before the open are found under the name the model computes
+    (RENAME COLUMN), or the column is gone (DROP COLUMN)"""
+    for t, c, c2 in moved:
+        old = (before["data"].get(t) or {}).get(c)
+        if old is None:
+            continue
+        if c2 is None:
+            if c in state["schema"].get(t, []):
+                ctx.disagree(f"{clause}.moved", dict(case, column=[t, c]), "still there", "dropped")
+                return
+        elif (state["data"].get(t) or {}).get(c2) != old:
+            ctx.disagree(f"{clause}.moved", dict(case, column=[t, c, c2]), (state["data"].get(t) or {}).get(c2), old)
+            return
+        ctx.hit("moved-column-checked")
+
+
+def compare_rows(ctx, case, rnode, state, events, clause="C19.rows", before=None):
     """statements, schema, stamp AND every row of every table of the real file vs the model with rows"""
     if rnode is None:
         ctx.disagree(f"{clause}.model-node-missing", case, None, None)
@@ -696,6 +713,8 @@ def compare_rows(ctx, case, rnode, state, events, clause="C19.rows"):
         t = bad[0]
         ctx.disagree(f"{clause}.table-rows", dict(case, table=t), (impl.get(t) or [])[:3], ((model or {}).get(t) or [])[:3])
         return False
+    if before is not None and rnode.get("moved"):
+        check_moved(ctx, case, rnode["moved"], before, state, clause)
     ctx.hit("rows-compared")
     return True
 
@@ -820,7 +839,7 @@ def run_tree(ctx, w, variant, rev, depth, cfg, crash=None, smoke="first", only_p
         ctx.case(case, nontrivial=True)
         ctx.hit("interrupted-open")
         compare_model(ctx, case, ans["crash"], after, events, clause="C19.interrupted")
-        compare_rows(ctx, case, rcrash, after, events, clause="C19.rows.interrupted")
+        compare_rows(ctx, case, rcrash, after, events, clause="C19.rows.interrupted", before=state0)
         before = after
         stamped_k = None  # what follows is judged by its net effect
 
@@ -846,7 +865,7 @@ def run_tree(ctx, w, variant, rev, depth, cfg, crash=None, smoke="first", only_p
                 compare_model(ctx, case, nodes[p], after, events)
             else:
                 ctx.disagree("C19.model-node-missing", case, None, None)
-            compare_rows(ctx, case, rnodes.get(p), after, events)
+            compare_rows(ctx, case, rnodes.get(p), after, events, before=before)
             if role == "migrate" and not err:
                 judge_new_columns(ctx, w, case, before, after)
             judge_session(ctx, w, case, before, after, events, err, role, stamped_k if len(p) == 1 else None)
